@@ -558,6 +558,24 @@ func (g *gen) families(a *Args, rng *Rng, emit func(*hcase), deferCase func(mk f
 			return &hcase{Family: "ladder", Ops: []*hop{g.set(u, p[0], p[1]), get(u), on(1, get(u)), get(v), g.set(u, "F1", ""), get(u), g.set(v, p[0], p[1]), on(1, get(v))}}
 		})
 	}
+
+	// J. urls named INSIDE a CRL (Issuing Distribution Point, Freshest CRL, Authority Information
+	// Access) never choose a cache key: iu = the url of the Set, iv = another url of the history,
+	// iw = a url nobody stores. Every named url is read before and after; iv holds a genuine
+	// bundle that must survive; the full-root listing after every operation does the rest.
+	iu, iv, iw := g.near[0], g.near[3], g.near[20]
+	extra := "http://crl.example.com/extra.crl"
+	for _, x := range []string{"XS", "XO", "XN", "XH", "XM", "XF", "XA", "XALL", "XE"} {
+		// stored before: iv's own bundle must still be answered, iw and the extra url stay misses
+		emit(&hcase{Family: "named-urls", Ops: []*hop{g.set(iv, "F2", "FD1"), g.set(iu, x, ""), get(iv), get(iu), get(iw), get(extra), on(1, get(iv))}})
+		// stored after, and the named url removed / overwritten afterwards
+		emit(&hcase{Family: "named-urls", Ops: []*hop{g.set(iu, x, ""), get(iv), get(iw), g.set(iv, "F3", ""), get(iv), get(iu), del(iu), get(iv), get(iu)}})
+	}
+	for _, p := range [][2]string{{"F1", "XD"}, {"XO", "XD"}, {"F1", "XDE"}, {"XM", "FD1"}, {"XE", "XD"}} {
+		emit(&hcase{Family: "named-urls", Ops: []*hop{g.set(iv, "F2", ""), g.set(iu, p[0], p[1]), get(iv), get(iu), get(iw), g.set(iw, p[0], p[1]), on(1, get(iw)), get(iv)}})
+	}
+	// the Set is refused or fails: nothing anywhere
+	emit(&hcase{Family: "named-urls", Ops: []*hop{g.set(iv, "F2", ""), g.set(iu, "", "XD"), get(iv), get(iw), mkdir(iu), g.set(iu, "XM", ""), get(iv), get(iw), get(extra)}})
 }
 
 // ---------- accounting ----------
@@ -616,6 +634,10 @@ func (g *gen) account(w *CaseWriter, id int64, term string, hc *hcase) {
 	if len(hc.Panics) > 0 {
 		w.Count("panic", "yes")
 		w.ImplViolation(id, "FileCache panicked: "+hc.Panics[0], hc, "")
+	}
+	if len(hc.RootFrame) > 0 {
+		w.Count("root_frame", "an operation changed the root entry of another key")
+		w.ImplViolation(id, "FileCache changed an entry of the cache root that is not the entry of the url of the operation: "+hc.RootFrame[0], hc, "")
 	}
 	if len(hc.Frame) > 0 {
 		w.Count("frame", "library mutated a caller-owned object")
